@@ -32,7 +32,7 @@ def gen(tier):
     elif len(conf) > 60000:
         conf = rng.sample(conf, 60000)
     for rs, ms in conf:
-        cases.append({'id': len(cases) + 1, 'mode': 'place', 'reqs': rs, 'machs': ms, 'machprocs': 0, 'maxp': 0, 'maxload': 0, 'events': [], 'probation_ms': 0})
+        cases.append({'id': len(cases) + 1, 'mode': 'place', 'reqs': rs, 'machs': ms, 'machprocs': 0, 'maxp': 0, 'maxload': 0, 'events': [], 'probation_ms': 0, 'bootkills': []})
     # (2) live manager
     n = 14 if tier == 'quick' else 250
     for k in range(n):
@@ -57,17 +57,24 @@ def gen(tier):
             else:
                 evs.append(['wait', 200])
         evs += [['done', r, 'nil'] for r in live]
+        # some machines die while they are being started (at the executor's first call to them)
+        bk = sorted(set(rng.sample(range(1, 5), rng.choice([1, 2])))) if rng.random() < 0.35 else []
         cases.append({'id': len(cases) + 1, 'mode': 'live', 'reqs': [], 'machs': [], 'machprocs': machprocs, 'maxp': maxp, 'maxload': maxload,
-                      'events': evs, 'probation_ms': 150})
+                      'events': evs, 'probation_ms': 150, 'bootkills': bk})
+    # dedicated: the only machine of a one-machine cluster dies while booting; its replacement must be started
+    for bk in ([1], [1, 2], [2]):
+        evs = [['offer', 0, 0, 1], ['offer', 1, 0, 1], ['done', 0, 'nil'], ['done', 1, 'nil'], ['offer', 2, 0, 1], ['done', 2, 'nil']]
+        cases.append({'id': len(cases) + 1, 'mode': 'live', 'reqs': [], 'machs': [], 'machprocs': 2, 'maxp': 2, 'maxload': 1.0,
+                      'events': evs, 'probation_ms': 150, 'bootkills': bk})
     # dedicated: a machine stops while on probation, then the probation timeout elapses
     for k in range(1 if tier == 'quick' else 6):
         evs = [['offer', 0, 0, 1], ['offer', 1, 0, 1], ['done', 0, 'transport'], ['kill', 0], ['wait', 2600], ['offer', 2, 0, 1], ['offer', 3, 0, 1],
                ['done', 1, 'nil'], ['done', 2, 'nil'], ['done', 3, 'nil']]
-        cases.append({'id': len(cases) + 1, 'mode': 'live', 'reqs': [], 'machs': [], 'machprocs': 2, 'maxp': 2, 'maxload': 1.0, 'events': evs, 'probation_ms': 2000})
+        cases.append({'id': len(cases) + 1, 'mode': 'live', 'reqs': [], 'machs': [], 'machprocs': 2, 'maxp': 2, 'maxload': 1.0, 'events': evs, 'probation_ms': 2000, 'bootkills': []})
     # dedicated: demand that is an exact multiple of the machine capacity
     for mp, ml, maxp, ps in ((4, 1.0, 8, [4]), (2, 1.0, 8, [2, 2]), (2, 0.5, 4, [1, 1, 1])):
         evs = [['offer', j, 0, p] for j, p in enumerate(ps)] + [['done', j, 'nil'] for j in range(len(ps))]
-        cases.append({'id': len(cases) + 1, 'mode': 'live', 'reqs': [], 'machs': [], 'machprocs': mp, 'maxp': maxp, 'maxload': ml, 'events': evs, 'probation_ms': 150})
+        cases.append({'id': len(cases) + 1, 'mode': 'live', 'reqs': [], 'machs': [], 'machprocs': mp, 'maxp': maxp, 'maxload': ml, 'events': evs, 'probation_ms': 150, 'bootkills': []})
     return cases
 
 
